@@ -26,7 +26,7 @@ func MapUnsignedLong(lexicalForm string) (UnsignedLong, error) {
 func (v UnsignedLong) AsObjectValue() rdf.ObjectValue {
 	return rdf.Literal{
 		Datatype:    xsdiri.UnsignedLong_Datatype,
-		LexicalForm: strconv.FormatInt(int64(v), 10),
+		LexicalForm: strconv.FormatUint(uint64(v), 10),
 	}
 }
 
@@ -42,5 +42,5 @@ func (v UnsignedLong) TermEquals(t rdf.Term) bool {
 		return false
 	}
 
-	return strconv.FormatInt(int64(v), 10) == tLiteral.LexicalForm
+	return strconv.FormatUint(uint64(v), 10) == tLiteral.LexicalForm
 }
